@@ -29,7 +29,7 @@ RULE = ("random block programs inside `async with scoped_iter(underlying)`: sequ
 ASSUMPTIONS = ["iterables without aclose get a neutral context: only the in-block sequence semantics are checked for them",
                "tool laziness is C05's concern; the stdlib twin predicts how many items each tool takes"]
 EXHAUSTIVE = {"quick": False, "thorough": False}
-N_PROG = {"quick": 2500, "thorough": 60000}
+N_PROG = {"quick": 4000, "thorough": 200000}
 FLAVS = ["async_gen", "async_class", "async_class", "async_class_bare", "sync_iter", "slowclose", "failclose"]
 
 
